@@ -254,6 +254,7 @@ def gen(rng, idx, tier):
         "scripts": scripts,
         "kerned_scripts": kerned,
         "ambiguous_only": ambiguous_only,
+        "variable": stratum == "default" and not skip_export and rng.random() < 0.1,
         "foreign": foreign,
         "ufo": {"glyphs": glyphs, "info": {"unitsPerEm": 1000, "familyName": "T", "styleName": "R",
                                            "ascender": 800, "descender": -200},
@@ -309,7 +310,29 @@ def run(case):
         counters["known_stratum_cases"] = 1
     font = build_ufo(spec, case["lib"])
     try:
-        tt = ufo2ft.compileTTF(font, useProductionNames=False)
+        if case.get("variable"):
+            # the same font as the DEFAULT master of a two-master designspace in which it is not
+            # the first source and the only one with a feature file (features are compatible:
+            # layout is built as variable features from the default source's text)
+            import copy
+            from vf.build import build_designspace
+            other = copy.deepcopy(spec)
+            other["features"] = ""
+            other["info"] = dict(other["info"], styleName="B")
+            for g in other["glyphs"]:
+                g["width"] = g["width"] + (10 if g["width"] else 0)
+                for a in g["anchors"]:
+                    a["x"] = a["x"] + 7
+            other["kerning"] = [[l_, r_, v_ - 5] for l_, r_, v_ in other["kerning"]]
+            ds = {"axes": [{"name": "Weight", "tag": "wght", "min": 400, "default": 400, "max": 700}],
+                  "ufos": [spec, other],
+                  "sources": [{"ufo": 1, "location": {"Weight": 700}, "name": "bold"},
+                              {"ufo": 0, "location": {"Weight": 400}, "name": "regular"}]}
+            doc, _ = build_designspace(ds, case["lib"])
+            tt = ufo2ft.compileVariableTTF(doc, useProductionNames=False)
+            bump("variable_font_default_source_not_first")
+        else:
+            tt = ufo2ft.compileTTF(font, useProductionNames=False)
         buf = io.BytesIO()
         tt.save(buf)
         buf.seek(0)
